@@ -52,12 +52,17 @@ func c06Ring() []*hx.Key {
 	if err != nil {
 		panic(err)
 	}
-	add("RSA", k, &k.PublicKey, "RS256", "RS384", "PS256")
+	add("RSA", k, &k.PublicKey, "RS256", "RS384", "RS512", "PS256", "PS384", "PS512")
 	e, _ := ecdsa.GenerateKey(elliptic.P256(), rand.Reader)
 	add("EC", e, &e.PublicKey, "ES256")
 	for i := 0; i < 2; i++ {
 		e384, _ := ecdsa.GenerateKey(elliptic.P384(), rand.Reader)
 		add("EC", e384, &e384.PublicKey, "ES384")
+	}
+	// P-521 (ES512): not in the fixed ring of hx.Keys; three pairs, generated once per harness run
+	for i := 0; i < 3; i++ {
+		e521, _ := ecdsa.GenerateKey(elliptic.P521(), rand.Reader)
+		add("EC", e521, &e521.PublicKey, "ES512")
 	}
 	pub, priv, _ := ed25519.GenerateKey(rand.Reader)
 	add("OKP", priv, pub, "EdDSA")
@@ -101,7 +106,8 @@ func (h *c06Hist) close() {
 	}
 }
 
-var c06Algs = []string{"RS256", "RS384", "PS256", "ES256", "ES384", "EdDSA"}
+// every algorithm the library supports for signing (crypto.GetHashAlgorithm knows exactly these)
+var c06Algs = []string{"RS256", "RS384", "RS512", "PS256", "PS384", "PS512", "ES256", "ES384", "ES512", "EdDSA"}
 
 // c06NewHist starts a history of `steps` issuances over `nprov` providers (one process, every storage uses key id "sig1")
 func c06NewHist(r *hx.Rand, id, steps, nprov int) *c06Hist {
